@@ -45,6 +45,7 @@ package mocker
 //@   ghost_set var_everset[m] = true
 //@   ensures takes_effect: varval[var_addr(m)] == value
 //@   ensures first_value_remembered: var_inv(m)
+//@   ensures history: var_everset[m] && var_first[m] == ite(old(var_everset[m]), old(var_first[m]), old(varval[var_addr(m)]))
 //@   panics_only_if bad_value: value == nil || !rt_assignable(rt_of(typeof(value)), var_type(m))
 //@   ensures_on_panic untouched: varval[var_addr(m)] == old(varval[var_addr(m)])
 
@@ -56,3 +57,39 @@ package mocker
 //@   ensures restores_pre_mock_value: old(var_everset[m]) ==> varval[var_addr(m)] == old(var_first[m])
 //@   ensures never_set_untouched: !old(var_everset[m]) ==> varval[var_addr(m)] == old(varval[var_addr(m)])
 //@   ensures canceled: m.canceled
+
+//@ func (m *defaultVarMocker) Set
+//@   props C08
+//@   requires target: var_target_ok(m)
+//@   requires inv: var_inv(m)
+//@   assigns m.originValue, m.originSaved, m.mockValue, varval[var_addr(m)], var_everset[m], var_first[m]
+//@   ensures takes_effect: varval[var_addr(m)] == value
+//@   ensures first_value_remembered: var_inv(m)
+//@   ensures history: var_everset[m] && var_first[m] == ite(old(var_everset[m]), old(var_first[m]), old(varval[var_addr(m)]))
+//@   panics_only_if bad_value: value == nil || !rt_assignable(rt_of(typeof(value)), var_type(m))
+//@   ensures_on_panic untouched: varval[var_addr(m)] == old(varval[var_addr(m)])
+
+//@ func newVarMocker
+//@   props C08
+//@   assigns nothing
+//@   fresh
+//@   ensures fields: result != nil && result.targetValue == targetValue && !result.canceled && !result.originSaved && result.originValue == nil
+
+// An unexported variable is overlaid with reflect.NewAt of the supplied value's type at the symbol's address.
+//@ func (m *unExportedVarMocker) Set
+//@   props C08
+//@   requires receiver: m != nil && m.defaultVarMocker != nil && m.target != nil
+//@   requires inv: var_inv(m.defaultVarMocker)
+//@   requires consistent_type: m.defaultVarMocker.originSaved ==> var_type(m.defaultVarMocker) == rt_of(typeof(value)) && rv_pointer(m.defaultVarMocker.targetValue) == addr(m.target)
+//@   assigns m.typ, m.defaultVarMocker.targetValue, m.defaultVarMocker.originValue, m.defaultVarMocker.originSaved, m.defaultVarMocker.mockValue, varval[addr(m.target)],
+//@     | var_everset[m.defaultVarMocker], var_first[m.defaultVarMocker]
+//@   ensures takes_effect: varval[addr(m.target)] == value
+//@   ensures first_value_remembered: var_inv(m.defaultVarMocker) && var_everset[m.defaultVarMocker] && var_first[m.defaultVarMocker] == ite(old(var_everset[m.defaultVarMocker]), old(var_first[m.defaultVarMocker]), old(varval[addr(m.target)]))
+//@   ensures overlay_at_symbol: rv_pointer(m.defaultVarMocker.targetValue) == addr(m.target)
+//@   panics_only_if bad_value: value == nil || !rt_assignable(rt_of(typeof(value)), rt_of(typeof(value)))
+
+// String methods only render a description for logs.
+//@ trusted func (m *defaultVarMocker) String
+//@   pure
+//@ trusted func (m *unExportedVarMocker) String
+//@   pure
